@@ -57,6 +57,7 @@ def ops(tier):
 
 # ---- direct oracle: the effective text per (element, kind, language) -------------------------------------------
 KINDS = {"label": None, "hint": None, "guidance_hint": "guidance"}
+MEDIA_KINDS = {"image": ("image", "jr://images/"), "audio": ("audio", "jr://audio/"), "video": ("video", "jr://video/"), "big-image": ("big-image", "jr://images/")}
 
 
 def cells_of(row, col, delim="::"):
@@ -173,6 +174,27 @@ def audit(form, xform, api_default_language=None):
                 exp = norm_cell(want) if want is not None else "-"
                 if shown != exp:
                     probs.append(f"{p}: language {l!r} is shown {shown!r} for {kind}, the sheet says {exp!r} (cells {cells})")
+        # media written for a language must be shown to that language (questions, groups and repeats alike)
+        lab = ctrl.find(X + "label")
+        lref = lab.get("ref") if lab is not None else None
+        for kind, (form_attr, prefix) in MEDIA_KINDS.items():
+            cells = dict(cells_of(row, kind))
+            for k, v in row.items():
+                parts = [q.strip() for q in k.split("::")]
+                if parts[0].lower() == "media" and len(parts) in (2, 3) and parts[1] == kind:
+                    cells[parts[2] if len(parts) == 3 else None] = v
+            if not cells or lref is None or not any(k2.split("::")[0].strip().lower() in ("label",) for k2 in row):
+                continue
+            tid = re.match(r"jr:itext\('(.*)'\)", lref).group(1)
+            for l in langs:
+                want = cells.get(l)
+                if want is None and (l == dl or (l == "default" and dl not in langs)):
+                    want = cells.get(None)
+                if want is None:
+                    continue
+                v = c07_value(root, tid, l, form_attr)
+                if v is None or (v.text or "") != prefix + want.strip():
+                    probs.append(f"{p}: language {l!r} is not shown the {kind} {want!r} written for it (found {None if v is None else v.text!r})")
     # choices
     lists = {}
     for row in form.get("choices", []):
@@ -266,7 +288,7 @@ def _check(args):
                 for k in [k for k in r if k.startswith("label")]:
                     del r[k]
     if i % 3 == 0:
-        forms.add_exotics(rng_for(seed, PID, "exotic", i), form, ["search", "search", "legacy_hint"], p=0.6)
+        forms.add_exotics(rng_for(seed, PID, "exotic", i), form, ["search", "search", "legacy_hint", "group_media", "group_media"], p=0.6)
     api_dl = None
     settings = (form.get("settings") or [{}])[0]
     if i % 4 == 1 and g.langs:
